@@ -9,6 +9,8 @@
 (*   new      NewOutputHierarchy returned (err)                            *)
 (*   parents  CreateParentDirectories returned (err) + the tree that       *)
 (*            exists afterwards, before the command runs                   *)
+(*   prerun   (executor mode, instead of new + parents) the real executor  *)
+(*            invoked the runner or not + the tree at that point           *)
 (*   upload   UploadOutputs returned (err) + the tree that exists + the    *)
 (*            decoded ActionResult with every Tree blob decoded            *)
 (*   panic    the real code panicked                                       *)
@@ -136,6 +138,33 @@ TParents ==
             IF ~Compatible(pre, cmd) THEN "ok"
             ELSE IF Line.err THEN "C10:parent-directories-not-created"
             ELSE IF ~C10_ParentsExist(cmd, t) THEN "C10:parent-directory-missing"
+            ELSE IF ~C10_OutputsNotPrecreated(cmd, pre, t) THEN "C10:worker-created-an-output-itself"
+            ELSE IF t # pre \cup {DirEntry(d) : d \in ParentDirs(cmd)}
+                 THEN "NC:more-than-the-parent-directories-changed"
+            ELSE "ok"
+  /\ result' = [err |-> Line.err]
+  /\ UNCHANGED <<cmd, pre>>
+
+\* Executor mode: the real localBuildExecutor either invoked the runner
+\* (ran; the tree is what the runner found) or returned without doing so
+\* (the tree is what the input root looks like afterwards).
+TPrerun ==
+  /\ IsEvent("prerun")
+  /\ LET t == TreeOf(Line.tree) IN
+       /\ Observed(t)
+       /\ fs' = t
+       /\ phase' = IF ~Valid(cmd) THEN (IF Line.ran THEN "accepted" ELSE "rejected")
+                   ELSE IF ~Compatible(pre, cmd) THEN "unspecified"
+                   ELSE IF Line.ran THEN "prepared" ELSE "failed"
+       /\ verdict' =
+            IF ~Valid(cmd) THEN
+              IF Line.ran THEN "C10:escaping-path-accepted"
+              ELSE IF t # pre THEN "C10:rejected-command-touched-the-input-root"
+              ELSE "ok"
+            ELSE IF ~Compatible(pre, cmd) THEN "ok"
+            ELSE IF ~Line.ran THEN "C10:valid-command-not-run"
+            ELSE IF ~C10_ParentsExist(cmd, t) THEN "C10:parent-directory-missing"
+            ELSE IF ~C10_OutputsNotPrecreated(cmd, pre, t) THEN "C10:worker-created-an-output-itself"
             ELSE IF t # pre \cup {DirEntry(d) : d \in ParentDirs(cmd)}
                  THEN "NC:more-than-the-parent-directories-changed"
             ELSE "ok"
@@ -160,7 +189,7 @@ TPanic ==
   /\ phase' = "panicked"
   /\ UNCHANGED <<cmd, pre, fs, result>>
 
-TNext == TReset \/ TNew \/ TParents \/ TUpload \/ TPanic
+TNext == TReset \/ TNew \/ TParents \/ TPrerun \/ TUpload \/ TPanic
 
 TraceSpec == TInit /\ [][TNext]_tvars
 
